@@ -133,6 +133,25 @@ def shard(ctx, si, payload):
         ctx.count("returned", int(kept_code.sum()))
         if not (len(b) == int(kept_code.sum()) == len(th) == len(L) == len(tt) and np.array_equal(np.asarray(th), nad[kept_code]) and np.all(np.abs((tt - times[kept_code]).sec) <= 1e-9 if len(tt) else True)):
             ctx.violation("returned", f"the returned (beta, nadir, path length, times) are not the kept instants in order ({len(b)} returned, {int(kept_code.sum())} kept)", wit)
+        # ---- a second throw on the same object (explicit fractions, reversed): nothing of the first
+        #      throw may survive; the kept pattern must be the first one reversed
+        if N > 1:
+            fr = (np.arange(N) / N)[::-1].copy()
+            fr0 = fr.copy()
+            try:
+                g.throw(fr)
+                hm2 = np.asarray(g.horizon_mask, bool)
+                k2 = np.zeros(N, bool)
+                k2[np.flatnonzero(hm2)[np.asarray(g.volume_mask, bool)]] = True
+                ctx.count("rethrow", N)
+                if fr.tobytes() != fr0.tobytes():
+                    ctx.violation("rethrow", "throw(times array) modified the array it was given", wit)
+                elif not (np.array_equal(k2, kept_code[::-1]) and np.allclose(np.asarray(g.sourceNadRad), nad[::-1], rtol=0, atol=1e-12) and len(g.pathLens()) == int(k2.sum())):
+                    ctx.violation("rethrow", f"a second throw on the same object with the instants reversed does not give the first throw's pattern reversed ({int(k2.sum())} kept vs {int(kept_code.sum())})", wit)
+            except Exception as e:
+                ctx.exception("rethrow", "a second throw(times array) on the same object raised", e, wit)
+            g.throw(N)
+            b, th, L, tt = g.beta_rad(), g.thetas(), g.pathLens(), g.val_times()
         # ---- triangle on the code's own nadir angles
         if len(b):
             nk = np.asarray(th, dtype=np.float64)
@@ -238,7 +257,7 @@ def run(ctx):
     nsh = 16
     P = [{"ks": ks[i::nsh], "ncut": ctx.pick(60, 400)} for i in range(nsh)]
     core.run_shards(ctx, "nssmon.checks.c13", "shard", P, workers=nsh, timeout=ctx.pick(1200, 6000))
-    for m in ("times", "astrometry", "occultation", "returned", "triangle", "dark-sky", "dark-sky-per-instant", "dark-sky-monotone", "channels", "astrometry-bodies"):
+    for m in ("times", "astrometry", "occultation", "returned", "rethrow", "triangle", "dark-sky", "dark-sky-per-instant", "dark-sky-monotone", "channels", "astrometry-bodies"):
         ctx.require(m)
     if ctx.obs.get("bright_kept_instants_in_channel_test", 0) < 5:
         ctx.inconclusive_because("no bright kept instants reached the channel test")
